@@ -477,7 +477,25 @@ def programs():
         d = grad(lambda q: anp.sum(q["k"] ** 2) + q["s"] * 2.0)({"k": ps[1], "s": float(a)})
         return [g[0], g[1], d["k"], onp.asarray(d["s"])]
 
-    return {"T17": T17, "T18": T18, "T19": T19, "T1": T1, "T2": T2, "T3": T3, "T4": T4, "T5": T5, "T6": T6, "T7": T7, "T8": T8, "T9": T9, "T10": T10, "T11": T11, "T12": T12, "T13": T13, "T14": T14, "T15": T15, "T16": T16}
+    def T20(a, b):
+        # differentiations whose function / backward pass RAISES inside the trace (caught by this thread), followed
+        # by ordinary work: the failure clean-up of one thread is invisible to the others
+        out = []
+        for kind in ("forward_raises", "rule_raises", "nested_inner_raises"):
+            try:
+                if kind == "forward_raises":
+                    grad(lambda y: (Y(), y * {}["missing"])[1])(b)
+                elif kind == "rule_raises":
+                    grad(lambda y: anp.sum(anp.cumprod(anp.array([y, y * a]))))(b)  # no VJP: raises when the node is built
+                else:
+                    grad(lambda x: x * grad(lambda z: (Y(), anp.reshape(z * x, (7,)))[1])(a))(b)
+                out.append(1.0)
+            except Exception:
+                out.append(0.0)
+            Y()
+        return onp.array(out + [grad(lambda y: y * y * a)(b)])
+
+    return {"T20": T20, "T17": T17, "T18": T18, "T19": T19, "T1": T1, "T2": T2, "T3": T3, "T4": T4, "T5": T5, "T6": T6, "T7": T7, "T8": T8, "T9": T9, "T10": T10, "T11": T11, "T12": T12, "T13": T13, "T14": T14, "T15": T15, "T16": T16}
 
 
 PARAMS = [(2.0, 1.0), (1.5, 0.7), (0.8, 1.3), (1.1, 0.9)]
@@ -586,7 +604,7 @@ def explore(res, cfg, tier, seed, shard, nshard, budget):
 
 def free_running(res, seed, iters, nthreads):
     P = programs()
-    names = ["T1", "T3", "T6", "T2", "T4", "T5", "T7", "T8", "T9", "T11", "T13", "T14", "T15", "T16", "T17", "T18", "T19"]
+    names = ["T1", "T3", "T6", "T2", "T4", "T5", "T7", "T8", "T9", "T11", "T13", "T14", "T15", "T16", "T17", "T18", "T19", "T20"]
     reset_shared()
     SHARED["vjp_f4"](onp.ones(6))  # the free-running stress shares closures that have been used once
     old = sys.getswitchinterval()
@@ -683,6 +701,11 @@ def configs(tier):
     cf.append({"progs": ["T19", "T19", "T19"], "kinds": ["op_before", "rule"], "mode": "random", "n": 150})
     cf.append({"progs": ["T2", "T5", "T6"], "kinds": ["op_before", "op_after"], "mode": "random", "n": 150})
     cf.append({"progs": ["T13", "T15", "T16"], "kinds": ["op_after", "rule"], "mode": "random", "n": 100})
+    # a thread whose differentiations fail (and are caught) next to threads doing nested work
+    cf.append({"progs": ["T20", "T1"], "kinds": ["enter_after", "exit_before", "explicit"], "mode": "dfs", "budget": 2500})
+    cf.append({"progs": ["T1", "T20"], "kinds": ["enter_before", "exit_after", "explicit"], "mode": "random", "n": 200})
+    cf.append({"progs": ["T20", "T1", "T20"], "kinds": KALL, "mode": "random", "n": 150})
+    cf.append({"progs": ["T20", "T2", "T1"], "kinds": ["op_before", "exit_before"], "mode": "random", "n": 100})
     cf.append({"progs": ["T5", "T5"], "kinds": ["rule"], "mode": "random", "n": 200})
     cf.append({"progs": ["T5", "T4"], "kinds": ["line_bp"], "mode": "random", "n": 120})
     cf.append({"progs": ["T5", "T5"], "kinds": ["line_rules"], "mode": "random", "n": 200})
